@@ -248,7 +248,7 @@ mut('c10-conv-bias-float64', ['C10'], 'conv1d_forward accumulates into a dtype-l
     [(K, "    conv_out = np.tensordot(weight, windows, axes=[(1,2), (2,3)])\n    if bias is not None: conv_out += bias.reshape(-1, 1, 1)", "    conv_out = np.tensordot(weight, windows, axes=[(1,2), (2,3)])\n    if bias is not None: conv_out = conv_out + np.ones(conv_out.shape) * bias.reshape(-1, 1, 1)")], rules=['C10.FWD'])
 mut('c10-leaky-mask-float64', ['C10'], 'leaky_relu_forward built from boolean masks times Python floats (float64 result)',
     [(K, "return np.maximum(neg_slope * a, a)", "return a * ((a > 0) + neg_slope * (a <= 0))")], rules=['C10.FWD'])
-mut('c10-place-windows-dtype', ['C10', 'C16'], 'place_windows allocates its output without the windows dtype',
+mut('c10-place-windows-dtype', ['C10'], 'place_windows allocates its output without the windows dtype',
     [(CT, "output = np.zeros((N, C, W_with_pad), dtype=windows.dtype)", "output = np.zeros((N, C, W_with_pad))")], rules=['C10.FWD'])
 mut('c10-acc-assign', ['C10'], 'relu closure assigns the kernel result as the buffer', [(NF, "        if x.requires_grad: x._grad += a_grad \n    \n    if out.requires_grad: out.grad_fn = BackwardFunction(backward, out._operation)\n        \n    return out\n\n\ndef leaky_relu",
       "        if x.requires_grad: x._grad = x._grad + a_grad \n    \n    if out.requires_grad: out.grad_fn = BackwardFunction(backward, out._operation)\n        \n    return out\n\n\ndef leaky_relu")], rules=['C10.BUFFER'])
@@ -450,4 +450,29 @@ mut('c05-flatten-fallback', ['C05'], 'flatten returns the input for start > end 
 mut('c05-zeros-drops-dtype', ['C05'], 'zeros() ignores dtype', [(T, "    return Tensor(np.zeros(shape, dtype=default_type__), dtype=dtype, requires_grad=requires_grad, name=name, device=device)", "    return Tensor(np.zeros(shape, dtype=default_type__), requires_grad=requires_grad, name=name, device=device)")], rules=['C05.CTOR'])
 mut('c05-ones-like-loses-dtype', ['C05', 'C10'], 'ones_like builds its data from the shape only', [(T, "    return Tensor(np.ones_like(tensor.data), dtype=dtype,", "    return Tensor(np.ones(tensor.shape), dtype=dtype,")], rules=['C05.CTOR'])
 mut('c05-twin-neg-via-F', ['C05'], '__neg__ through F.neg', [(T, "        return self * -1.0", "        return F.neg(self)")], expect='silent')
-mut('c05-twin-sub-via-F', ['C05'], '__sub__ through F.add / F.neg', [(T, "        return self + (-other)", "        return F.add(self, -other)")], expect='silent')
+mut('c05-twin-sub-mul', ['C05'], '__sub__ written as self + other * -1.0', [(T, "        return self + (-other)", "        return self + other * -1.0")], expect='silent')
+
+# ------------------------------------------------------------------------------------------------ C06 / C16
+mut('c06-im2col-int-kernel (revert of fix)', ['C06', 'C16'], 'im2col_fast subscripts an int kernel_size', [(CT, "    N, C, H, W = a.shape\n    kernel_size = np.broadcast_to(kernel_size, 2)\n    \n    windows = extract_windows(", "    N, C, H, W = a.shape\n    \n    windows = extract_windows(")], rules=['C06.GEOM', 'C16.GEOM'])
+mut('c06-outsize-dilation-k', ['C06', 'C16'], 'get_conv2d_output_size uses dilation*k instead of dilation*(k-1)', [(CT, "lH = int(np.floor((H_with_pad - dilation[0] * (kernel_size[0] - 1) - 1) / stride[0] + 1))\n    lW = int(np.floor((W_with_pad - dilation[1] * (kernel_size[1] - 1) - 1) / stride[1] + 1))\n    \n    return lH, lW", "lH = int(np.floor((H_with_pad - dilation[0] * kernel_size[0] - 1) / stride[0] + 1))\n    lW = int(np.floor((W_with_pad - dilation[1] * (kernel_size[1] - 1) - 1) / stride[1] + 1))\n    \n    return lH, lW")], rules=['C06.OUTSIZE', 'C16.OUTSIZE'])
+mut('c06-outsize-ceil', ['C06', 'C16'], 'conv1d output size rounds up', [(CT, "num_windows = int(np.floor((length_padded - dilation * (kernel_size - 1) - 1) / stride + 1).item())", "num_windows = int(np.ceil((length_padded - dilation * (kernel_size - 1) - 1) / stride + 1).item())")], rules=['C06.OUTSIZE', 'C16.OUTSIZE'], accept_incomplete=True)
+mut('c06-outsize-single-pad', ['C06', 'C16'], 'padding counted once in the 1d output size', [(CT, "length_padded = input_length + 2 * padding", "length_padded = input_length + padding")], rules=['C06.OUTSIZE', 'C16.OUTSIZE'])
+mut('c06-extract-windows-size', ['C06', 'C16'], 'extract_windows counts windows with ceil-like arithmetic', [(CT, "out_shape = tuple((in_shape - ((kernel_size - 1) * dilation + 1)) // step + 1)", "out_shape = tuple((in_shape - ((kernel_size - 1) * dilation + 1) + step - 1) // step + 1)")], rules=['C06.OUTSIZE', 'C16.OUTSIZE'])
+mut('c06-maxpool-zero-pad', ['C06'], 'max pooling pads with 0 (padding can win for negative inputs)', [(K, "def max_pool2d_forward(a, kernel_size, stride, padding, dilation):\n    windows = extract_windows(a, kernel_size, stride, padding, dilation, pad_value=-np.inf)", "def max_pool2d_forward(a, kernel_size, stride, padding, dilation):\n    windows = extract_windows(a, kernel_size, stride, padding, dilation, pad_value=0)")], rules=['C06.PAD'])
+mut('c06-avgpool-stride-dilation-swapped', ['C06'], 'avg_pool1d_forward passes (dilation, padding, stride) to extract_windows', [(K, "def avg_pool1d_forward(a, kernel_size, stride, padding, dilation):\n    windows = extract_windows(a, kernel_size, stride, padding, dilation, pad_value=0)", "def avg_pool1d_forward(a, kernel_size, stride, padding, dilation):\n    windows = extract_windows(a, kernel_size, dilation, padding, stride, pad_value=0)")], rules=['C06.PAD', 'C02'])
+mut('c06-bn-eps-outside', ['C06'], 'batch norm adds eps outside the square root', [(K, "    std = np.sqrt(var + eps)\n    \n    x_norm", "    std = np.sqrt(var) + eps\n    \n    x_norm")], rules=['C06.BN'])
+mut('c06-reduction-silent (revert of fix)', ['C06'], 'unknown reduction silently returns the unreduced loss', [(LS, "        elif self.reduction is None or self.reduction == 'none':\n            reduction = loss \n        else:\n            raise ValueError(f\"'{self.reduction}' is not a valid value for reduction ('mean', 'sum', 'none')\")", "        else:\n            reduction = loss ")], rules=['C06.ENUM'])
+mut('c06-reduction-mean-is-sum', ['C06'], 'mean reduction sums', [(LS, "            reduction = loss.mean()", "            reduction = loss.sum()")], rules=['C06.ENUM'])
+mut('c06-conv2d-layer-swaps-padding-dilation', ['C06'], 'Conv2d.forward passes dilation as padding', [(LY, "return F.conv2d(x, self.weight, self.bias, self.stride, self.padding, self.dilation)", "return F.conv2d(x, self.weight, self.bias, self.stride, self.dilation, self.padding)")], rules=['C06.LAYER-PLUMB'])
+mut('c06-fold-layer-positional', ['C06'], 'Fold.forward passes stride/dilation positionally in the wrong slots', [(LY, "        return F.fold(x, output_size=self.output_size, kernel_size=self.kernel_size, stride=self.stride,\n                      padding=self.padding, dilation=self.dilation)", "        return F.fold(x, self.output_size, self.kernel_size, self.stride, self.dilation, self.padding)")], rules=['C06.LAYER-PLUMB'])
+mut('c06-maxpool2d-stride-default', ['C06'], 'MaxPool2d default stride is 1', [(LY, "        kernel_size = np.broadcast_to(kernel_size, 2)\n        if stride is None: stride = kernel_size\n        else: stride = np.broadcast_to(stride, 2)\n        padding = np.broadcast_to(padding, 2)\n        dilation = np.broadcast_to(dilation, 2)\n        \n        self.kernel_size = kernel_size\n        self.stride = stride\n        self.padding = padding\n        self.dilation = dilation\n        \n    def forward(self, x: Tensor) -> Tensor: \n        return F.max_pool2d(", "        kernel_size = np.broadcast_to(kernel_size, 2)\n        if stride is None: stride = np.broadcast_to(1, 2)\n        else: stride = np.broadcast_to(stride, 2)\n        padding = np.broadcast_to(padding, 2)\n        dilation = np.broadcast_to(dilation, 2)\n        \n        self.kernel_size = kernel_size\n        self.stride = stride\n        self.padding = padding\n        self.dilation = dilation\n        \n    def forward(self, x: Tensor) -> Tensor: \n        return F.max_pool2d(")], rules=['C06.LAYER-GEOM'])
+mut('c16-col2im-overwrite', ['C16'], 'col2im_v2 overwrites overlapping windows', [(CT, "output[:, :, h_start:h_end:h_step, w_start:w_end:w_step] = o + window", "output[:, :, h_start:h_end:h_step, w_start:w_end:w_step] = window")], rules=['C16.ACCUMULATE'])
+mut('c16-col2im-index-stride-dilation', ['C16'], 'col2im computes its indices with stride and dilation swapped', [(CT, "col_indices = get_im2col_indices((N, C, H, W), kernel_size=kernel_size, dilation=dilation, padding=padding, stride=stride)", "col_indices = get_im2col_indices((N, C, H, W), kernel_size=kernel_size, dilation=stride, padding=padding, stride=dilation)")], rules=['C16.PAIR-INDEX'])
+mut('c16-v2-window-end', ['C16'], 'col2im_v2 window end off by the dilation term', [(CT, "            h_end = i * stride[0] + kernel_size[0] + (dilation[0] - 1) * (kernel_size[0] - 1)\n            h_step = dilation[0]\n            w_start = j * stride[1]", "            h_end = i * stride[0] + kernel_size[0] + (dilation[0] - 1) * kernel_size[0]\n            h_step = dilation[0]\n            w_start = j * stride[1]")], rules=['C16.PAIR-SLICE'])
+mut('c16-v2-column-index', ['C16'], 'im2col_v2 writes window (i, j) into column j*lH + i', [(CT, "output[:, :, i*lW + j] = window.ravel().reshape(output[:, :, i*lW + j].shape)", "output[:, :, j*lH + i] = window.ravel().reshape(output[:, :, j*lH + i].shape)")], rules=['C16.PAIR-SLICE'])
+mut('c16-fast-stride-as-dilation', ['C16', 'C02'], 'col2im_fast hands (dilation, padding, stride) to place_windows', [(CT, "output = place_windows(windows, output_shape, kernel_size, stride, padding, dilation)", "output = place_windows(windows, output_shape, kernel_size, dilation, padding, stride)")], rules=['C16.PAIR-FAST'])
+mut('c16-crop-asymmetric', ['C16'], 'col2im crops p+1 on the left', [(CT, "        output = output[:, :, padding[0]:H_with_pad-padding[0], padding[1]:W_with_pad-padding[1]]\n\n    out = output if not return_indices", "        output = output[:, :, padding[0]+1:H_with_pad-padding[0]+1, padding[1]:W_with_pad-padding[1]]\n\n    out = output if not return_indices")], rules=['C16.PADCROP'])
+mut('c16-im2col-pad-value-dropped', ['C16'], 'im2col ignores pad_value', [(CT, "        a, ((0, 0), (0, 0)) + tuple((padding[d], padding[d]) for d in range(2)),\n        mode='constant', constant_values=pad_value)\n    \n    if col_indices is None:", "        a, ((0, 0), (0, 0)) + tuple((padding[d], padding[d]) for d in range(2)),\n        mode='constant', constant_values=0)\n    \n    if col_indices is None:")], rules=['C16.PADCROP'])
+mut('c16-layout-wrong-perm', ['C16'], 'im2col_v2 2-D layout uses transpose(1, 0, 2)', [(CT, "        output = output.transpose(1, 2, 0).reshape(kernel_size[0] * kernel_size[1] * C, -1)\n            \n    return output", "        output = output.transpose(1, 0, 2).reshape(kernel_size[0] * kernel_size[1] * C, -1)\n            \n    return output")], rules=['C16.LAYOUT2D'])
+mut('c16-empty-guard-dropped', ['C16', 'C06'], 'im2col_v2 no longer rejects an empty output', [(CT, "    if L <= 0:\n        raise RuntimeError('Cannot unfold a tensor", "    if L < -10**9:\n        raise RuntimeError('Cannot unfold a tensor")], rules=['C16.EMPTY', 'C06.EMPTY'])
+mut('c16-twin-outsize-floordiv', ['C16', 'C06'], 'conv2d output size written with //', [(CT, "lW = int(np.floor((W_with_pad - dilation[1] * (kernel_size[1] - 1) - 1) / stride[1] + 1))\n    \n    return lH, lW", "lW = (W + 2 * padding[1] - dilation[1] * (kernel_size[1] - 1) - 1) // stride[1] + 1\n    \n    return lH, lW")], expect='silent')
